@@ -71,9 +71,14 @@ func init() {
 		Oracles:   func(w *World) []Oracle { return []Oracle{&c01Oracle{}} },
 		Quick:     Budget{Runs: 160, MaxEvents: 140},
 		Thorough:  Budget{Runs: 2400, MaxEvents: 400},
+		TweakCfg: func(r *Rng, cfg *Config) {
+			if cfg.Scenario == "cdp+ctl" && r.Chance(2, 3) {
+				cfg.Knobs["esm"] = 1 // emergency shutdown can be executed in this run
+			}
+		},
 		Essential: []string{"c01.checked_with_open_vaults"},
-		BatchProbe: []string{"c01.checked_with_open_vaults"},
-		Rule: "one case = one seeded simulated run (swarm configuration + PRNG-scheduled users, block boundaries, time gaps, oracle packets, faults) of the whole app; distinct = distinct digest of (event, outcome) sequence; non-trivial = the custody/totals oracle was evaluated at least once with open vaults",
+		BatchProbe: []string{"c01.checked_with_open_vaults", "c01.checked_with_locked_vaults", "c01.checked_after_emergency_redemption"},
+		Rule: "one case = one seeded simulated run (swarm configuration + PRNG-scheduled users, block boundaries, time gaps, oracle packets, faults) of the whole app; a third of the runs add the emergency-control actors (breaker flips, ESM deposits and execution, cool-off passed through clock gaps); distinct = distinct digest of (event, outcome) sequence; non-trivial = the custody/totals oracle was evaluated at least once with open vaults",
 		Assume: []string{"CometBFT, IBC core and wasm VM are stubbed by the simulator", "governance set-up is applied through keeper entry points"},
 	}
 	props["C02"] = &PropSpec{
@@ -81,6 +86,11 @@ func init() {
 		Oracles:   func(w *World) []Oracle { return []Oracle{&c02Oracle{}} },
 		Quick:     Budget{Runs: 160, MaxEvents: 140},
 		Thorough:  Budget{Runs: 2400, MaxEvents: 400},
+		TweakCfg: func(r *Rng, cfg *Config) {
+			if cfg.Scenario == "cdp+ctl" && r.Chance(2, 3) {
+				cfg.Knobs["esm"] = 1 // emergency shutdown can be executed in this run
+			}
+		},
 		Essential: []string{"c02.mint_checked", "c02.retire_checked"},
 		BatchProbe: []string{"c02.mint_with_fee", "c02.mint_zero_fee", "c02.retire_checked", "c02.fee_paid_from_supply"},
 		Rule: "one case = one seeded simulated run; distinct = distinct digest of (event, outcome) sequence; non-trivial = at least one successful mint and one successful repayment/close were checked against supply, user and collector balance deltas",
@@ -226,6 +236,11 @@ func registerDerived() {
 		if scenarios[base] != nil {
 			ctl := derive(base, "+ctl", c14Gens)
 			props["C14"].Scenarios = append(props["C14"].Scenarios, ctl)
+			if base == "cdp" {
+				// custody, totals and supply backing also under breaker / emergency shutdown (redemption set-up, re-opened vaults)
+				props["C01"].Scenarios = append(props["C01"].Scenarios, "cdp", ctl)
+				props["C02"].Scenarios = append(props["C02"].Scenarios, "cdp", ctl)
+			}
 			// block hooks, replicas and export/import also run under breaker / emergency shutdown
 			props["C16"].Scenarios = append(props["C16"].Scenarios, ctl)
 			props["C15"].Scenarios = append(props["C15"].Scenarios, derive(ctl, "+inject", func(b func(w *World) []OpGen) func(w *World) []OpGen {
